@@ -28,6 +28,10 @@ ENTRIES = {
     "auto_home": lambda g, t: g.auto_home(comment=t),
     "probe": lambda g, t: g.probe("towards", z=-1, comment=t),
     "emergency_halt": lambda g, t: g.emergency_halt(t),
+    # comment= handed through an interpolated path to every segment
+    "trace-arc": lambda g, t: (g.set_resolution(2.0), g.trace.arc((4, 0), (2, 0), comment=t)),
+    "trace-polyline": lambda g, t: g.trace.polyline([(1, 0), (1, 1)], comment=t),
+    "trace-spline": lambda g, t: (g.set_resolution(2.0), g.trace.spline([(2, 2), (4, 0)], comment=t)),
 }
 
 
